@@ -34,6 +34,7 @@ class SimTransport(asyncio.Transport):
         self.reading = True
         self.held = []           # deliveries deferred while reading is paused
         self.nw = 0
+        self.eof_done = False
 
     # ---- client side ---------------------------------------------------------
     def write(self, data):
@@ -127,8 +128,8 @@ class SimTransport(asyncio.Transport):
 
     # ---- gateway side --------------------------------------------------------
     def deliver(self, data):
-        if self.lost:
-            return
+        if self.lost or self.eof_done:
+            return               # nothing follows a FIN
         if not self.reading:
             self.held.append((self.deliver, (data,)))
             return
@@ -143,6 +144,7 @@ class SimTransport(asyncio.Transport):
             self.held.append((self.eof, ()))
             return
         self.conn["fault"] = (self.sim.ev("gw", "eof", self.conn["id"]), self.loop.vt, "eof")
+        self.eof_done = True
         keep = self.proto.eof_received()
         if not keep:
             self.close()
@@ -369,6 +371,18 @@ class NetSim:
                 sim.fired["status_cb_raise"] += 1
                 raise RuntimeError("sim: status callback failed")
 
+        s_sync = set(scfg.get("sync_raise") or [])
+        if scfg.get("plain_callable"):
+            # the registered callback is an ordinary callable that returns the awaitable (a dispatcher, a partial);
+            # it may also fail before it has produced one
+            def on_status_plain(state):
+                i = len(sim.status)
+                if i in s_sync:
+                    sim.status.append((sim.ev("cb", "status", (i, state.name)), sim.loop.vt, sim.loop.iters, state.name))
+                    sim.fired["status_cb_raise_at_call"] += 1
+                    raise KeyError("sim: status dispatcher failed")
+                return on_status(state)
+            return on_recv, on_status_plain
         return on_recv, on_status
 
     # ---- client construction ---------------------------------------------------
